@@ -457,3 +457,17 @@ def run(ctx) -> None:
     f, df, anchor, kernels, coef_names = _stencil(ctx)
     _slow_array(ctx)
     _axis_scale(ctx, f, df, anchor, kernels, coef_names)
+
+
+# ---- added: package rule R-CACHEKEY (sa/rules/memo2.py) for the modules this property is anchored in
+_inner_run = run
+
+
+def run(ctx) -> None:  # noqa: F811
+    from ..rules import memo2
+
+    ctx.rule("R-CACHEKEY", memo2.__doc__.split("\n\n", 1)[1])
+    memo2.positive_control(ctx)
+    n = memo2.check(ctx, modules={"abtem.finite_difference"})
+    ctx.ok("R-CACHEKEY", "scan", "abtem/", f"{n} cache stores found in the anchored modules; positive control matched")
+    _inner_run(ctx)
